@@ -1,6 +1,6 @@
 (* C20 — property theorems only (see design_notes/C20.md for what is and is not covered). *)
 From SwayV Require Import Base.Util C21.Str C21.Model C20.Model C20.Spec C20.StrLemmas C20.SrcProofs
-     C20.LineProofs C20.ListLemmas C20.GraphProofs C20.Refute.
+     C20.LineProofs C20.ListLemmas C20.GraphProofs C21.Judge C20.Judge C20.JudgeProofs C20.Refute.
 From Coq Require Import Permutation.
 
 (* Display then FromStr of a pinned source is the identity, for each of the five kinds, under the
@@ -53,6 +53,30 @@ Theorem C20_lock_roundtrip :
     exists g', to_graph parse_url parse_cid parse_ver l = Ok g' /\ graph_equiv url cid ver g' g.
 Proof. exact lock_roundtrip. Qed.
 Print Assumptions C20_lock_roundtrip.
+
+(* The deciders evaluated by the judge (C20/Judge.v; external values = their Display strings,
+   parsers = the measured verdict table t) are sound for the Props of Spec.v: *)
+Theorem C20_graph_equivb_sound :
+  forall g g' : graph str str str, graph_equivb g g' = true -> graph_equiv str str str g g'.
+Proof. exact graph_equivb_sound. Qed.
+Print Assumptions C20_graph_equivb_sound.
+
+Theorem C20_wf_decider_sound :
+  forall (t : table) (g : graph str str str),
+    reason t g = 0%N ->
+    wf_graph str str str C20.Judge.idf C20.Judge.idf C20.Judge.idf (orc t QUrl) (orc t QCid) (orc t QVer) g.
+Proof. exact reason_sound. Qed.
+Print Assumptions C20_wf_decider_sound.
+
+(* so judge code 0 on a case means: its graph is inside wf_graph and the graph the implementation
+   read back has the same packages and edges *)
+Theorem C20_judge_code0_means_property :
+  forall (t : table) (g1 : graph str str str) (lock : list pkglock) (i : impl_res (graph str str str)) (r : N),
+    judge20 t g1 lock i = (0%N, r) ->
+    wf_graph str str str C20.Judge.idf C20.Judge.idf C20.Judge.idf (orc t QUrl) (orc t QCid) (orc t QVer) g1 /\
+    exists g2, i = IOk g2 /\ graph_equiv str str str g2 g1.
+Proof. exact judge20_code0. Qed.
+Print Assumptions C20_judge_code0_means_property.
 
 (* Non-vacuity of wf_graph: member `app`, two packages named `std` (git branch, path) and a registry
    package; a library edge to each `std` (disambiguated lines), a renamed contract dependency with a
